@@ -1,7 +1,7 @@
 (* C20 -- property theorems only. *)
-From Coq Require Import List NArith Bool.
+From Coq Require Import List NArith Bool Permutation Sorted.
 Import ListNotations.
-Require Import Verif.Lib.Wire Verif.Lib.C20Types Verif.Gen.Facts_C20 Verif.Model.C20 Verif.Proofs.C20 Verif.Proofs.C20_commit Verif.Proofs.C20_rel Verif.Proofs.C20_wf Verif.Proofs.C20_gen Verif.Proofs.C20_ainfo.
+Require Import Verif.Lib.Wire Verif.Lib.C20Types Verif.Gen.Facts_C20 Verif.Model.C20 Verif.Proofs.C20 Verif.Proofs.C20_commit Verif.Proofs.C20_rel Verif.Proofs.C20_wf Verif.Proofs.C20_gen Verif.Proofs.C20_ainfo Verif.Proofs.C20_ord.
 Require Verif.Model.C04.
 
 Theorem C20_keys_faithful : forall s k f,
@@ -245,3 +245,14 @@ Theorem C20_history_statements_point_at_themselves : forall cs,
   Forall2 (fun c o => Forall (eq (own_info c)) o) cs (snd (run_statements None [] cs)).
 Proof. exact history_statements_point_at_themselves. Qed.
 Print Assumptions C20_history_statements_point_at_themselves.
+
+(* ---- get_category (every state): exactly the stored entries of the category, in ascending registration order *)
+Theorem C20_get_category_exact_and_sorted : forall s c l,
+  get_category s c = Some l ->
+  Permutation (map snd (cat_of s c)) l /\ Sorted (fun x y => (snd x <= snd y)%N) l.
+Proof. exact get_category_exact_and_sorted. Qed.
+Print Assumptions C20_get_category_exact_and_sorted.
+
+Theorem C20_get_category_none : forall s c, get_category s c = None <-> assoc c (cats s) = None.
+Proof. exact get_category_none. Qed.
+Print Assumptions C20_get_category_none.
